@@ -86,6 +86,20 @@ func gen(r *hlib.Rand, n int, tier, profile string, emit func(string, ...any)) {
 	emit("calc %s", ints([]int{maxW, maxW, maxW, maxW})) // total just below 2^33
 	emit("calc %s", ints([]int{maxW, maxW, maxW, maxW, 4}))
 	emit("calc %s", ints([]int{maxW, maxW, maxW, maxW, 3}))
+	// deterministic family: totals 2^33-2 .. 2^33+1 in several splits (the last gateway's running weight equals
+	// the total: w == total == 2^33-1 is where a 64-bit (w<<31 + total/2) wraps), each also balanced with a
+	// flow whose hash lies in the last share
+	for _, tail := range [][]int{{3}, {1, 2}, {2}, {4}, {5}, {1, 1, 1}, {maxW - 2147483644}} {
+		for _, head := range [][]int{{maxW, maxW, maxW, maxW}, {maxW, maxW - 1, maxW, maxW - 1, 2}, {1 << 30, 1 << 30, maxW, maxW, maxW, 1}} {
+			ws := append(append([]int{}, head...), tail...)
+			emit("calc %s", ints(ws))
+			for _, y := range []uint32{1<<31 - 1, 1<<31 - 2, 1<<31 - 1000} {
+				if lp, rp, ok := portsForHash(y); ok {
+					emit("bal %d %d 6 0 0a000001 0a000002 17 1 0a000003 0a000004 %s", lp, rp, ints(ws))
+				}
+			}
+		}
+	}
 	if tier == "thorough" {
 		// every pair of small weights, every single weight near the limits
 		for a := 1; a <= 24; a++ {
